@@ -2,16 +2,17 @@
 
 Also hosts the helpers shared by the modules of cluster B (c04, c17, c15, c19): building databases from generated
 ATOM lines, JSON transport of values / tables / keyword arguments, canonical form of answers and exceptions."""
-import contextlib, io, itertools, sqlite3, sys, warnings
+import contextlib, copy, io, itertools, sqlite3, sys, warnings
 from fractions import Fraction
 import numpy as np
+import vlib
 from vlib import rat, unrat, exc_tag
 from pdb2sql import pdb2sql, many2sql, interface
 
 ID = 'C03'
 LEVEL = 'proof'
 CLUSTER = 'B'
-GEN_UNITS = ['Consts']
+GEN_UNITS = ['Consts', 'sql_runtime', 'sql_get_nokw', 'sql_get_cond', 'sql_get_query', 'sql_format_get_output']
 RULE = ('Tables of 0-40 atoms drawn from small value pools (so that conditions hit and miss). Per table: EVERY subset of size <= 4 '
         'of a pool of 6 conditions with distinct keys (bounded-exhaustive), EVERY ordered attribute list of length 1-4 over a pool of 4 '
         'attributes (rowID always among them) plus "*", then seeded random conjunctions of 0-4 positive/negated conditions over every '
@@ -20,12 +21,20 @@ RULE = ('Tables of 0-40 atoms drawn from small value pools (so that conditions h
         'condition names, padded names, non-integer rowID values, letter-case variants of names). Every third query carries its condition '
         'values in NumPy scalars (np.int64 rowIDs, np.float64, np.str_), every fourth is issued twice on the same object (answers must '
         'coincide); all queries of a table, well-formed and malformed, share ONE object. A case is non-trivial when distinct '
-        'by content and its answer is neither empty nor the whole table, or it is an error case.')
+        'by content and its answer is neither empty nor the whole table, or it is an error case. '
+        'SQL TEXT TIE (extra checks): the statement text and the bound values the real get() hands to the sqlite3 cursor (recorded by a '
+        'proxy around db.c in the harness) are compared with the text / values of the TRANSLATED builder (Gen/Sql.lean, driver op sql_get) for '
+        'generated keyword lists (scalars, lists, empty lists, no_ keys, rowID keys incl. floats and strings -> TypeError, several keys, '
+        'combined weight > 999 -> the documented error, table names other than ATOM and in other letter case, column strings with blanks, "*"); '
+        'every recorded statement is also evaluated by MicroSql (op sql_query) and compared with the rows sqlite3 returns; '
+        '_format_get_output is compared with its translation directly (op sql_format).')
 ASSUMPTIONS = ['SQLite compares a bound value with a column as Model.sqlEq says (affinity of the column applied to the value; numbers '
                'numerically; text byte-wise): sampled on every case, not proved',
                'text -> number conversion of SQLite equals Tbl.numOfText (nearest double of a decimal literal) on the literals generated '
                '(<= 6 significant digits); number -> text equals Tbl.textOfReal (15 significant digits) on the values generated']
-TRUSTED = ['Tbl.numOfText / Tbl.textOfReal / Py.toDouble are executable model code shared by Spec and Model (the "decimal string form" of the property)']
+TRUSTED = ['Tbl.numOfText / Tbl.textOfReal / Py.toDouble are executable model code shared by Spec and Model (the "decimal string form" of the property)',
+           'Model/MicroSql.lean (tokenizer, parser, evaluator of the emitted statement grammar) is the SQLite contract of Props/C03K: proved equal to the '
+           'hand model, sampled against sqlite3 on every recorded statement']
 
 STD = ['serial', 'name', 'altLoc', 'resName', 'chainID', 'resSeq', 'iCode', 'x', 'y', 'z', 'occ', 'temp', 'element', 'model']
 KIND = {'serial': 'int', 'resSeq': 'int', 'model': 'int', 'x': 'real', 'y': 'real', 'z': 'real', 'occ': 'real', 'temp': 'real',
@@ -544,9 +553,173 @@ def distribution(recs):
             'outcomes': outcomes, 'theorem_domain': dom, 'selection_size': hits}
 
 
+# ---------------------------------------------------------------------------------------------------------
+# the SQL text tie: what the real code sends to SQLite vs what the translated builder produces
+# ---------------------------------------------------------------------------------------------------------
+
+class Recorder:
+    """a recording proxy around the sqlite3 cursor of a pdb2sql object (in the harness; /repo is not touched)"""
+
+    def __init__(self, cur):
+        self._cur = cur
+        self.log = []
+
+    def execute(self, sql, params=()):
+        self.log.append(('execute', sql, list(params)))
+        return self._cur.execute(sql, params)
+
+    def executemany(self, sql, rows):
+        rows = [list(r) for r in rows]
+        self.log.append(('executemany', sql, [list(r) for r in rows]))
+        return self._cur.executemany(sql, rows)
+
+    def __iter__(self):
+        return iter(self._cur)
+
+    def __getattr__(self, name):
+        return getattr(self._cur, name)
+
+
+def recorded(db, f):
+    """run f() with db.c replaced by a recording proxy -> (outcome, log)"""
+    real = db.c
+    rec = Recorder(real)
+    db.c = rec
+    try:
+        out = call(f)
+    finally:
+        db.c = real
+    return out, rec.log
+
+
+def main_statements(log):
+    """the statements other than the `SELECT EXISTS(...)` probes of the key validation"""
+    return [e for e in log if not e[1].startswith('SELECT EXISTS')]
+
+
+def jstmt(e):
+    return {'text': e[1], 'vals': [jval(x) for x in e[2]]}
+
+
+def sql_columns(rng):
+    u = rng.random()
+    if u < 0.15:
+        return '*'
+    names = [rng.choice(COLNAMES) for _ in range(rng.choice([1, 1, 2, 3, 4]))]
+    if u < 0.55:
+        return ','.join(names)
+    pad = lambda n: rng.choice(['', ' ', '  ', '\t']) + n + rng.choice(['', ' ', '  '])
+    return ','.join(pad(n) for n in names)
+
+
+def sql_text_checks(ctx):
+    rng = ctx.rng
+    res = []
+    # ---- get(): text + values, and MicroSql's evaluation of every recorded statement
+    lines, meta = [], []
+    qlines, qmeta = [], []
+    skipped = {'validation': 0, 'chunked': 0}
+    tables = []
+    for t in range(ctx.scale(6, 20)):
+        n = rng.choice([0, 1, 3, 7, 12, 25])
+        rows = rand_table(rng, n)
+        real_tn = rng.choice(['atom', 'atom', 'ATOM', 'mol_1', 'Chain_A'])
+        db = build(rows, tablename=real_tn)
+        check_parse(db, rows, tn=real_tn)
+        tables.append((db, rows, real_tn, n))
+    for k in range(ctx.scale(900, 6000)):
+        db, rows, real_tn, n = tables[k % len(tables)]
+        u = rng.random()
+        if u < 0.08:
+            kws = []
+        else:
+            ks = rng.sample(COLNAMES, rng.choice([1, 1, 2, 2, 3, 4]))
+            kws = [rand_cond(rng, key, n, rows=rows) for key in ks]
+            if rng.random() < 0.1:
+                kws.append(('rowID' if rng.random() < 0.5 else 'no_rowID', rng.choice([[0, 1, 2], 1, [], [2, 2], 1.5, [0.0, 1.0], '1', ['0', 1]])))
+            if rng.random() < 0.04:                           # combined weight beyond the limit of bound variables
+                a, b = rng.sample(['serial', 'resSeq', 'no_serial', 'x', 'name'], 2)
+                kws = [(a, list(range(rng.choice([500, 949, 950])))), (b, list(range(rng.choice([50, 499, 500, 600]))))] + kws[:1]
+            seen, uniq = set(), []
+            for kk, vv in kws:
+                if kk not in seen:
+                    seen.add(kk); uniq.append((kk, vv))
+            kws = uniq
+        tn = rng.choice([real_tn, real_tn, real_tn.upper(), real_tn.lower()])
+        if real_tn.lower() == 'atom' and rng.random() < 0.3:
+            tn = 'ATOM'
+        columns = sql_columns(rng)
+        out, log = recorded(db, lambda: db.get(columns, tablename=tn, **dict(kws)))
+        stm = main_statements(log)
+        case = {'op': 'sql_get', 'columns': columns, 'tn': tn, 'kw': jkw(kws)}
+        if any(isinstance(v, list) and len(v) > 950 for _, v in kws):
+            skipped['chunked'] += 1
+            continue
+        if len(stm) == 1 and stm[0][0] == 'execute':
+            got = jstmt(stm[0])
+        elif not stm and out in ('ERR:TypeError', 'ERR:ValueError:TooManyVars'):
+            got = out                                       # raised while the query was being built
+        elif not stm and is_err(out):
+            skipped['validation'] += 1                      # rejected before the query is built (column / key validation)
+            continue
+        else:
+            got = {'unexpected': [short(stm), short(out)]}
+        lines.append(case); meta.append((case, got))
+        for e in stm:
+            raw = call(lambda: canon(db.c.execute(e[1], e[2]).fetchall()))
+            dbj = db_json([(real_tn, rows)])
+            qlines.append({'op': 'sql_query', 'db': dbj, 'text': e[1], 'params': [jval(x) for x in e[2]]})
+            qmeta.append((e, raw))
+    ans = vlib.run_driver(lines + qlines, which='model', cluster=CLUSTER) if lines or qlines else []
+    bad, kinds = None, {}
+    for (case, got), a in zip(meta, ans[:len(lines)]):
+        m = a.get('model')
+        kk = 'error' if isinstance(got, str) else 'statement'
+        kinds[kk] = kinds.get(kk, 0) + 1
+        if m != got and bad is None:
+            bad = {'case': case, 'real code sends': got, 'translated builder': m}
+    res.append({'name': f'SQL text and bound values of get(): real code = translated builder ({len(meta)} calls: {kinds}; skipped {skipped})',
+                'ok': bad is None and len(meta) > 50, 'case': bad, 'detail': 'Gen/Sql.lean get_query / get_nokw vs the statement recorded at the sqlite3 cursor',
+                'kind': 'sql-text'})
+    bad, nq, disc = None, 0, 0
+    for (e, raw), a in zip(qmeta, ans[len(lines):]):
+        m = a.get('model')
+        if isinstance(m, str) and m.startswith('ERR:UNMODELLED'):
+            disc += 1
+            continue
+        nq += 1
+        if m != raw and bad is None:
+            bad = {'statement': e[1], 'values': [jval(x) for x in e[2]], 'sqlite3': short(raw), 'MicroSql': short(m)}
+    res.append({'name': f'MicroSql = sqlite3 on every recorded SELECT ({nq} statements, {disc} outside the grammar)', 'ok': bad is None and nq > 50,
+                'case': bad, 'detail': 'Model/MicroSql.lean is the SQLite contract of Props/C03K', 'kind': 'microsql'})
+    # ---- _format_get_output against its translation
+    flines, fmeta = [], []
+    for k in range(ctx.scale(600, 4000)):
+        ncol = rng.choice([1, 1, 2, 3, 4])
+        names = [rng.choice(['rowID', 'x', 'name', 'serial', 'rowID']) for _ in range(ncol)]
+        columns = rng.choice([','.join(names), ','.join(names), '*', ', '.join(names), ' ' + ','.join(names), 'no_rowID', 'rowID ', 'x,rowID,rowID'])
+        nrow = rng.choice([0, 1, 2, 5])
+        width = rng.choice([ncol, ncol, ncol, 1, ncol + 1])
+        cell = lambda: rng.choice([rng.randrange(-2, 40), rng.randrange(1, 9), float(rng.choice([0.5, 2.0, -1.25])), rng.choice(['CA', '7', ''])])
+        data = [[cell() if rng.random() < 0.25 else rng.randrange(1, 50) for _ in range(width)] for _ in range(nrow)]
+        out = call(lambda: canon(pdb2sql._format_get_output(copy.deepcopy(data), columns)))
+        flines.append({'op': 'sql_format', 'data': [[jval(x) for x in r] for r in data], 'columns': columns})
+        fmeta.append(out)
+    fans = vlib.run_driver(flines, which='model', cluster=CLUSTER) if flines else []
+    bad, outcomes = None, {}
+    for c, out, a in zip(flines, fmeta, fans):
+        tag = out if is_err(out) else 'ok'
+        outcomes[tag] = outcomes.get(tag, 0) + 1
+        if a.get('model') != out and bad is None:
+            bad = {'case': c, '_format_get_output': short(out), 'translation': short(a.get('model'))}
+    res.append({'name': f'_format_get_output = its translation ({len(flines)} inputs: {outcomes})', 'ok': bad is None, 'case': bad,
+                'detail': 'Gen/Sql.lean format_get_output', 'kind': 'sql-text'})
+    return res
+
+
 # candidate findings (reported, not failing): see the cluster report
 def extra_checks(ctx):
-    res = []
+    res = sql_text_checks(ctx)
     rows = rand_table(ctx.rng, 6)
     db = build(rows)
     # rowID means the same thing as attribute, as condition and as update address
